@@ -119,6 +119,22 @@ class Impl:
             elif op == 'clear':
                 sh.clear()
                 c.clear(); r = None
+            elif op == 'extend':
+                xs = [int(t) for t in ws[1:]]
+                for x in xs:
+                    if not (self.unique and x in sh):
+                        sh.append(x)
+                how = (len(sh) + len(xs)) % 3
+                vals = [E[x] for x in xs]
+                if how == 0:
+                    c.extend(vals)
+                elif how == 1:
+                    c += vals
+                elif hasattr(c, 'update'):
+                    c.update(vals)
+                else:
+                    c.extend(iter(vals))
+                r = None
             elif op == 'setitem':
                 i, x = int(ws[1]), int(ws[2])
                 if self.unique:
@@ -196,6 +212,9 @@ def all_ops(n, univ, unique):
     if unique:
         ops += [f'discard {x}' for x in range(univ)]
     ops += ['clear']
+    # bulk additions: nothing, new elements, elements already there, the same new element twice in one batch
+    ops += ['extend'] + [f'extend {x}' for x in range(univ)] + [f'extend {x} {y}' for x in range(univ) for y in range(univ)]
+    ops += [f'extend {x} {(x + 1) % univ} {x}' for x in range(univ)]
     ops += [f'setitem {i} {x}' for i in W for x in range(univ)]
     ops += [f'delitem {i}' for i in W]
     return ops
@@ -225,7 +244,9 @@ def random_op(rng, n, univ, unique):
         return f'discard {x}'
     if k < 0.73:
         return 'clear'
-    if k < 0.87:
+    if k < 0.8:
+        return 'extend ' + ' '.join(str(rng.randrange(univ)) for _ in range(rng.randint(0, 4)))
+    if k < 0.9:
         return f'setitem {i} {x}'
     return f'delitem {i}'
 
